@@ -616,6 +616,8 @@ package orda
 //@   requires wrappersWF()
 //@   ensures result == garbageP(primOf(its))
 //@   modifies nothing
+//@ extern func jsonType.getCommon
+//@   modifies nothing
 // the kind a node reports is the kind of its wrapper (1 element, 2 object, 3 array): proved on every implementation
 //@ func jsonType.getType
 //@   mode math
@@ -742,3 +744,33 @@ package orda
 //@   loop 0 invariant len(ret) == rangeindex + 1 && rangeindex < len(children)
 //@   ensures[one-document-per-node] len(result) == len(children)
 //@   modifies alloc
+
+//@ func isNullValue
+//@   mode math
+//@   props C03
+//@   ensures[nil-is-null] v == nil ==> result
+//@   modifies nothing
+
+//@ func hasNullValue
+//@   mode math
+//@   props C03
+//@   loop 0 invariant rangeindex < len(values) && (forall j int :: {values[j]} 0 <= j && j <= rangeindex ==> values[j] != nil)
+//@   ensures[finds-every-null] !result ==> forall v in values :: v != nil
+//@   modifies nothing
+
+// ---------------------------------------------------------------------------------------
+// Building json nodes from Go values by reflection (C03: no value makes it panic). Kinds as in package reflect:
+// 0 Invalid (null), 17 Array, 20 Interface, 21 Map, 22 Ptr, 23 Slice, 25 Struct.
+// ---------------------------------------------------------------------------------------
+//@ func (*jsonPrimitive).createJSONArray
+//@   trusted builds the array node over listSnapshot, whose contracts are stated for List values (*timedNode)
+//@   mode math
+//@   requires its.common != nil && ts != nil && value != nil
+//@   modifies *
+
+//@ func (*jsonPrimitive).createJSONTypeFromReflectValue
+//@   mode math
+//@   props C03
+//@   dispatch jsonType : *jsonPrimitive | *jsonObject | *jsonArray | *jsonElement
+//@   requires its.common != nil && ts != nil && allocated(ts) && parent != nil && (parent.(*jsonObject) || parent.(*jsonArray))
+//@   modifies *
